@@ -218,6 +218,23 @@ func NewSpec(seed uint64, prop string) *Spec {
 		for _, m := range s.methods(false) {
 			s.MethodSkip[m.Name] = r.IntN(2) == 0
 		}
+		// the alphabetically first root method carries the setting, the last one does not
+		// (methods are built in name order; a shared sub-method is created by the first)
+		var rootNames []string
+		for _, root := range s.Roots {
+			rootNames = append(rootNames, fmt.Sprintf("Conv%d", root.ID))
+		}
+		sort.Strings(rootNames)
+		if len(rootNames) >= 2 {
+			for _, m := range s.methods(false) {
+				// container methods of the last root must not carry it either
+				if strings.HasSuffix(m.Name, strings.TrimPrefix(rootNames[len(rootNames)-1], "Conv")) && m.Name != rootNames[0] {
+					s.MethodSkip[m.Name] = false
+				}
+			}
+			s.MethodSkip[rootNames[0]] = true
+			s.MethodSkip[rootNames[len(rootNames)-1]] = false
+		}
 	}
 	s.MethodWrapOff = map[string]bool{}
 	if prop == "C07" && s.Wrap == "wrapErrors" && r.IntN(3) != 0 {
